@@ -87,6 +87,8 @@ type Case struct {
 	Screen    bool         `json:"screen"`
 	Wrap      string       `json:"wrap"` // "" = all commands, "none", "probe"
 	Editor    string       `json:"editor"`
+	RawOut    bool         `json:"rawout"`  // log the raw bytes written to the tty at every wait
+	DumpCfg   bool         `json:"dumpcfg"` // log the bind tables and variables after set-up
 	Sessions  [][]Action   `json:"sessions"`
 	HangMs    int          `json:"hangms"`
 }
@@ -293,6 +295,7 @@ func runCase(cs *Case, ci int, pty *ptyPair, em *emu, home string) (alive bool) 
 	pty.setSize(cs.W, cs.H)
 	em.reset(cs.W, cs.H)
 	em.logTok = cs.Screen
+	em.keepRaw = cs.RawOut
 	t0 := pty.termios()
 
 	var g *gate
@@ -445,6 +448,13 @@ func runCase(cs *Case, ci int, pty *ptyPair, em *emu, home string) (alive bool) 
 	}
 	if len(cs.ClearKm) == 0 {
 		for _, km := range []string{"emacs", "vi-insert", "vi-command"} {
+			// the set-up key must fire at once: drop default binds it would only be a prefix of
+			// (vi-insert binds "\x1c\x00" to self-insert)
+			for seq := range rl.Config.Binds[km] {
+				if len(seq) > 1 && strings.HasPrefix(seq, "\x1c") {
+					delete(rl.Config.Binds[km], seq)
+				}
+			}
 			rl.Config.Bind(km, "\x1c", "probe-setup", false)
 		}
 	}
@@ -494,6 +504,24 @@ func runCase(cs *Case, ci int, pty *ptyPair, em *emu, home string) (alive bool) 
 	logj(map[string]any{"ev": "case", "c": cs.ID, "ci": ci, "w": cs.W, "h": cs.H, "prompt": strInts(cs.Prompt),
 		"sources": dumpSources()})
 
+	if cs.DumpCfg {
+		binds := map[string][]any{}
+		for km, tbl := range rl.Config.Binds {
+			for seq, b := range tbl {
+				binds[km] = append(binds[km], []any{strInts(seq), strInts(b.Action), b.Macro})
+			}
+		}
+		vars := map[string][]string{}
+		for k, v := range rl.Config.Vars {
+			vars[k] = []string{fmt.Sprintf("%T", v), fmt.Sprint(v)}
+		}
+		cmds := []string{}
+		for name := range rl.Keymap.Commands() {
+			cmds = append(cmds, name)
+		}
+		logj(map[string]any{"ev": "config", "c": cs.ID, "binds": binds, "vars": vars, "commands": cmds})
+	}
+
 	alive = true
 	for si, sess := range cs.Sessions {
 		done := make(chan struct{})
@@ -536,6 +564,9 @@ func runCase(cs *Case, ci int, pty *ptyPair, em *emu, home string) (alive bool) 
 				nwait++
 				if cs.Screen {
 					screenFields(m)
+				}
+				if cs.RawOut {
+					m["raw"] = hex.EncodeToString(em.takeRaw())
 				}
 				logj(m)
 				return true
